@@ -73,6 +73,13 @@ def addRowGen : List (Int × String × String) → Maps → CRow → Option Maps
   | [], m, _ => some m
   | (lit, dict, how) :: rest, m, r => if r.type = lit then applyBranch m r dict how else addRowGen rest m r
 
+/-! ## what last-writer-wins amounts to -/
+
+/-- the table in which every connector keeps only its *last* presynaptic row (in visiting order) -/
+def lastPreOnly : List CRow → List CRow
+  | [] => []
+  | r :: t => if isPre r && hasPre t r.cid then lastPreOnly t else r :: lastPreOnly t
+
 /-! ## incremental construction -/
 
 /-- `add_neuron(nrn)` on the state (names dict keys, the two dicts) -/
@@ -170,6 +177,15 @@ def n2nxWeight (th : Option Nat) (idx : List String) (M : Dense) (s t : String) 
 /-- nodes of the resulting graph: endpoints of the surviving edges, first occurrence order -/
 def n2nxNodes (th : Option Nat) (idx : List String) (M : Dense) : List String :=
   dedup ((n2nx th idx M).flatMap fun p => [p.1.1, p.1.2])
+
+/-! ## `group_matrix`: checker for the totals of navis' own result -/
+
+/-- the total the grouped matrix has to have: that of `M`, or of the sub-matrix that survives `drop_ungrouped` -/
+def keptTotal (rg cg : Groups) (drop : Bool) (M : LMat) : Rat :=
+  if rg.isEmpty && cg.isEmpty then total M else total (restrict rg.toMap cg.toMap drop M)
+
+/-- does the matrix `G` (what navis returned for `method='SUM'`) conserve the synapse total of `M`? -/
+def groupTotalsOKB (rg cg : Groups) (drop : Bool) (M G : LMat) : Bool := decide (total G = keptTotal rg cg drop M)
 
 /-! ## `group_matrix`: method names -/
 
